@@ -182,8 +182,9 @@ char *__wrap_strdup(const char *s) {
 }
 
 int __wrap_vasprintf(char **out, const char *fmt, va_list ap) {
+	if (ledgering() && alloc_should_fail()) { *out = nullptr; errno = ENOMEM; return -1; }
 	int r = __real_vasprintf(out, fmt, ap);
-	if (r >= 0 && ledgering()) { g_sim.nallocs++; ledger_add(*out, (size_t) r + 1); }
+	if (r >= 0 && ledgering()) ledger_add(*out, (size_t) r + 1);
 	return r;
 }
 
